@@ -19,6 +19,7 @@ import Proofs.GoTieKeygenModel
 import Proofs.GoTieCliModel
 import Proofs.GoTieCliSegments
 import Proofs.GoTieCliMain
+import Proofs.GoTieCliCompose
 namespace AgeModel
 namespace Tie.C15
 open Extracted
@@ -276,6 +277,66 @@ theorem main_dispatch_file {ζ τ : Type} (E : GoTie.MainEnv ζ τ) (ap : Bytes 
           let c ← E.WCl o.1 t2
           if (c.1 != none) = true then .error (.panic 1014) else pure c.2) :=
   GoTie.main_dispatch_file E ap a hfc hArg hSet hFd hIsT hAP hout hnot t0
+
+/-! ### The pieces fit together
+
+The abstract callee of one translated function, instantiated with the TRANSLATED definition of the
+function it stands for: `decryptNotPass` with `decrypt`, `encryptPass` / `encryptNotPass` with
+`encrypt`. No assumption about `decrypt` / `encrypt` is left — only about what they call. -/
+
+theorem decryptNotPass_decrypt {ι τ υ ζ : Type} (reject : ι) (PIF : Bytes → τ → Go.M (List ι × Option Go.Err × τ)) (ui : υ)
+    (NI : Bytes → υ → τ → Go.M (ι × Option Go.Err × τ))
+    (NR : Bytes → Go.M Bytes) (Dec : Bytes → List ι → Go.M (Bytes × Option Go.Err))
+    (W : τ → Bytes → Go.M (Int × Option Go.Err × τ)) (Cp : τ → Bytes → Go.M (Int × Option Go.Err × τ))
+    (flags : List main_identityFlag) (inp : Bytes) (out : ζ) (t0 : τ) :
+    main_decryptNotPass reject PIF ui NI (fun ids i (_ : ζ) t => main_decrypt NR Dec W Cp ids i t) flags inp out t0 =
+      (do let r ← GoTie.collectIds PIF ui NI flags t0 [reject]
+          if GoTie.mangled inp = true then .error (.panic 1000)
+          else (do
+            let in' ← (if GoTie.armored inp = true then NR inp else pure inp)
+            let d ← Dec in' r.2
+            if (d.2 != none) = true then .error (.panic 1001)
+            else do
+              let w ← W r.1 []
+              if (w.2.1 != none) = true then .error (.panic 1002)
+              else do
+                let c ← Cp w.2.2 d.1
+                if (c.2.1 != none) = true then .error (.panic 1003) else pure c.2.2)) :=
+  GoTie.decryptNotPass_decrypt reject PIF ui NI NR Dec W Cp flags inp out t0
+
+theorem encryptPass_encrypt {ζ ρ τ : Type} (Pr : τ → Go.M (Bytes × Option Go.Err × τ)) (NS : Bytes → τ → Go.M (ρ × Option Go.Err × τ))
+    (Cfg : ρ → Go.M Unit) (nilZ : ζ) (NW : ζ → τ → Go.M (ζ × τ)) (Enc : ζ → List ρ → τ → Go.M (ζ × Option Go.Err × τ))
+    (Cp : ζ → Bytes → τ → Go.M (Int × Option Go.Err × τ)) (Cl : ζ → τ → Go.M (Option Go.Err × τ))
+    (inp : Bytes) (out : ζ) (armor : Bool) (t0 : τ) :
+    main_encryptPass Pr NS Cfg (main_encrypt nilZ NW Enc Cp Cl) inp out armor t0 =
+      (do let p ← Pr t0
+          if (p.2.1 != none) = true then .error (.panic 1000)
+          else do
+            let r ← NS p.1 p.2.2
+            if (r.2.1 != none) = true then .error (.panic 1001)
+            else do
+              Cfg r.1
+              if armor = true then (do
+                let a ← NW out r.2.2
+                GoTie.encryptTail Enc Cp Cl [r.1] inp a.1 (some a.1) a.2)
+              else GoTie.encryptTail Enc Cp Cl [r.1] inp out none r.2.2) :=
+  GoTie.encryptPass_encrypt Pr NS Cfg nilZ NW Enc Cp Cl inp out armor t0
+
+theorem encryptNotPass_encrypt {ζ ι ρ τ υ : Type} (PR : Bytes → τ → Go.M (ρ × Option Go.Err × τ))
+    (PRF : Bytes → τ → Go.M (List ρ × Option Go.Err × τ)) (PIF : Bytes → τ → Go.M (List ι × Option Go.Err × τ))
+    (I2R : List ι → τ → Go.M (List ρ × Option Go.Err × τ)) (ui : υ) (NI : Bytes → υ → τ → Go.M (ι × Option Go.Err × τ))
+    (IR : ι → τ → Go.M (ρ × τ)) (nilZ : ζ) (NW : ζ → τ → Go.M (ζ × τ)) (Enc : ζ → List ρ → τ → Go.M (ζ × Option Go.Err × τ))
+    (Cp : ζ → Bytes → τ → Go.M (Int × Option Go.Err × τ)) (Cl : ζ → τ → Go.M (Option Go.Err × τ))
+    (recs files : List Bytes) (flags : List main_identityFlag) (inp : Bytes) (out : ζ) (armor : Bool) (t0 : τ) :
+    main_encryptNotPass PR PRF PIF I2R ui NI IR (main_encrypt nilZ NW Enc Cp Cl) recs files flags inp out armor t0 =
+      (do let a ← GoTie.collectR PR recs t0 []
+          let b ← GoTie.collectRF PRF files a.1 a.2
+          let c ← GoTie.collectIR PIF I2R ui NI IR flags b.1 b.2
+          if armor = true then (do
+            let w ← NW out c.1
+            GoTie.encryptTail Enc Cp Cl c.2 inp w.1 (some w.1) w.2)
+          else GoTie.encryptTail Enc Cp Cl c.2 inp out none c.1) :=
+  GoTie.encryptNotPass_encrypt PR PRF PIF I2R ui NI IR nilZ NW Enc Cp Cl recs files flags inp out armor t0
 
 end Tie.C15
 end AgeModel
